@@ -105,13 +105,22 @@ func (a *Args) Iter() iter.Seq2[string, ipld.Node] {
 
 // ToIPLD wraps an instance of an Args with an ipld.Node.
 func (a *Args) ToIPLD() (ipld.Node, error) {
-	sort.Strings(a.Keys)
+	keys := a.sortedKeys()
 
-	return qp.BuildMap(basicnode.Prototype.Any, int64(len(a.Keys)), func(ma datamodel.MapAssembler) {
-		for _, key := range a.Keys {
+	return qp.BuildMap(basicnode.Prototype.Any, int64(len(keys)), func(ma datamodel.MapAssembler) {
+		for _, key := range keys {
 			qp.MapEntry(ma, key, qp.Node(a.Values[key]))
 		}
 	})
+}
+
+// sortedKeys returns a sorted copy of the keys: reading an Args (which may be
+// shared, e.g. through an immutable Token) must not reorder it in place.
+func (a *Args) sortedKeys() []string {
+	keys := make([]string, len(a.Keys))
+	copy(keys, a.Keys)
+	sort.Strings(keys)
+	return keys
 }
 
 // Equals tells if two Args hold the same values.
@@ -131,12 +140,12 @@ func (a *Args) Equals(other *Args) bool {
 }
 
 func (a *Args) String() string {
-	sort.Strings(a.Keys)
+	keys := a.sortedKeys()
 
 	buf := strings.Builder{}
 	buf.WriteString("{")
 
-	for _, key := range a.Keys {
+	for _, key := range keys {
 		buf.WriteString("\n\t")
 		buf.WriteString(key)
 		buf.WriteString(": ")
